@@ -68,6 +68,31 @@ func (c *Ctx) WithSummariesFrom(base Subst, pred AtomPred) func(b *ssa.BasicBloc
 		if depth >= 3 {
 			return false
 		}
+		if a.Op == "==" && (isNilConst(a.LV) || isNilConst(a.RV)) {
+			// [helper(...) err == nil]: accepting if every nil-error return of the helper is cut by accepting edges
+			call, sites, _, ok := helperKSites(a)
+			if !ok || len(sites) == 0 {
+				return false
+			}
+			f := call.Call.StaticCallee()
+			ns := Subst{}
+			for kk, v := range s {
+				ns[kk] = v
+			}
+			for i, p := range f.Params {
+				if i < len(call.Call.Args) {
+					ns[p] = s.Res(call.Call.Args[i])
+				}
+			}
+			accept := func(b *ssa.BasicBlock, i int, e *an.Atom) bool { return judge(e, ns, depth+1) }
+			for _, site := range sites {
+				site := site
+				if x, _ := an.Cut(an.CutQuery{From: an.Entry(f), Target: func(i ssa.Instruction) bool { return i == site }, AcceptEdge: accept}); x != nil {
+					return false
+				}
+			}
+			return true
+		}
 		if a.Op == "==" {
 			// [helper(...) == K] for an enum-valued module helper: accepting if every origin of the constant K among the
 			// helper's results lies in the helper itself and is cut there by accepting edges (parameters substituted).
